@@ -139,7 +139,8 @@ def aggregate(mod, prop, tier, seed, results, inconclusive_batches, known, wall)
         for v in rec.get("violations", []):
             viols.append((rec, v))
 
-    os.makedirs(os.path.join(HERE, "evidence", "replays"), exist_ok=True)
+    evdir = os.environ.get("VERIF_EVIDENCE_DIR") or os.path.join(HERE, "evidence")
+    os.makedirs(os.path.join(evdir, "replays"), exist_ok=True)
     printed_known = set()
     new_sigs = {}
     known_hits = {}
@@ -156,7 +157,7 @@ def aggregate(mod, prop, tier, seed, results, inconclusive_batches, known, wall)
     replay_paths = []
     for sig, lst in new_sigs.items():
         rec, v = min(lst, key=lambda rv: len(json.dumps(rv[0].get("case", ""))))
-        path = os.path.join(HERE, "evidence", "replays", "%s-%s.json" % (prop, caseio.digest([sig, rec.get("case")])))
+        path = os.path.join(evdir, "replays", "%s-%s.json" % (prop, caseio.digest([sig, rec.get("case")])))
         with open(path, "w") as f:
             json.dump({"property": prop, "module": mod.__name__, "sig": sig, "violation": v,
                        "case": rec.get("case"), "seed": seed, "tier": tier, "index": rec["i"],
@@ -203,7 +204,7 @@ def aggregate(mod, prop, tier, seed, results, inconclusive_batches, known, wall)
         ev["coverage"]["exhaustive"] = True
     verdict = "violated" if new_sigs else ("inconclusive" if inconclusive else "held_on_observed")
     ev["coverage"]["verdict"] = verdict
-    with open(os.path.join(HERE, "evidence", "%s.json" % prop), "w") as f:
+    with open(os.path.join(evdir, "%s.json" % prop), "w") as f:
         json.dump(caseio.jsonable(ev, strict=True), f, indent=1, allow_nan=False)
     print("%s tier=%s seed=%s cases=%d distinct_nontrivial=%d clauses=%s status=%s wall=%.1fs verdict=%s" % (
         prop, tier, seed, n_cases, len(shapes), json.dumps(clauses), json.dumps(status), wall, verdict))
